@@ -120,7 +120,7 @@ func execTB(in In, em *Emitter) {
 			abn = guard(func() { tb = bitmap.NewTailBitmap(o) })
 		case "Set":
 			idx := op.I("idx")
-			ev["idx"] = num(idx - o0)
+			ev["idx"] = relProbe(idx, o0) // (far below o0 only "below" and the index mod 64 matter)
 			abn = guard(func() { tb.Set(idx) })
 		case "SetRange": // Set(lo), Set(lo+1), ..., Set(hi-1): one event (Trace_TailBitmap!TraceSetRange)
 			lo, hi := op.I("lo"), op.I("hi")
@@ -429,6 +429,13 @@ func genC15(g *Gen) {
 				t.Set(cursor + int64(r.Intn(200)))
 			case x < 78:
 				t.Set(o - 1 - int64(r.Intn(130)))
+				if o >= 1<<31 && r.Intn(2) == 0 { // far below the offset: distances beyond 2^31, 2^32, 2^37 bits
+					far := []int64{0, 5, 63, 64, o - 1<<31, o - 1<<32 - 3, o - 1<<37, o - 1<<37 - 64, o - 1<<38 + 7, o / 2, o - 1<<31 + 1}[r.Intn(11)]
+					if far >= 0 && far < o {
+						t.Set(far)
+						t.probes(2)
+					}
+				}
 			case x < 83:
 				t.Compact()
 			case x < 86: // word boundary indexes
@@ -530,8 +537,19 @@ func genC15(g *Gen) {
 	for rep := 0; rep < g.N(2, 9); rep++ {
 		o := int64(64 * r.Intn(3))
 		nwords := bigs[(rep+int(g.Seed)*2)%len(bigs)]
+		if rep < 2 {
+			nwords = bigs[(rep+int(g.Seed)*2)%7] // the first two histories always drop more than 1024 words
+		}
 		t := newTBGen(g, o)
 		hole0 := int64(r.Intn(64))
+		var farLive []int64
+		if rep%3 != 1 { // live bits far ahead (1100..3100 words behind the run): many words remain when the run is dropped
+			for n := 1 + r.Intn(2); n > 0; n-- {
+				idx := o + 64*int64(nwords+1100+r.Intn(2000)) + int64(r.Intn(64))
+				t.Set(idx)
+				farLive = append(farLive, idx)
+			}
+		}
 		for b := int64(0); b < 64; b++ {
 			if b != hole0 {
 				t.Set(o + b)
@@ -562,8 +580,21 @@ func genC15(g *Gen) {
 		t.probes(2)
 		t.Set(o + hole0) // one Compact drops nwords words
 		t.probes(3)
+		for _, idx := range farLive {
+			t.probe(idx)
+			t.probe(idx - 1)
+			t.probe(idx - 64)
+			t.probe(idx&^63 + 63)
+		}
+		if len(farLive) > 0 {
+			t.done() // (the sequel below assumes that nothing lies beyond the run)
+			continue
+		}
 		// grow again
 		k := []int{nwords - 1, 0, 1, 3, 1023, 1024, 1025, nwords, 2 * nwords}[r.Intn(9)]
+		if rep%2 == 0 {
+			k = nwords - 1 - r.Intn(20) // grow back to just below the old length: inside whatever capacity was kept
+		}
 		far := t.hi + int64(64*k) + int64(r.Intn(64))
 		if r.Intn(3) == 0 {
 			far = end + int64(64*k) + int64(r.Intn(64))
